@@ -47,6 +47,9 @@ Rules applied to extracted text (recorded in evidence as coverage.extraction.dro
  10e (opt-in, `pin_alias NAME=self.F`) pin_project plumbing of a wrapper around a pinned field: `let mut NAME = self.project().F;`
     deleted and NAME written out as `self.F`; `path::m(self.F.as_mut(), args)` -> `self.F.m(args)`;
     `self.F.project().G.m(` -> `Pin::new(&mut self.F.G).m(`
+ 18 (opt-in, `async_block_body N`) the function is emitted with the BODY OF ITS N-th `async [move] { .. }` BLOCK as its body
+    (same parameters; the function's own text around the block is dropped and listed): what is verified is the value that
+    block evaluates to — an `async move` block runs its body over the captured parameters, `?` leaves the block
  13 (opt-in, `emit_as X`) the function is emitted under the identifier X (same text verified against another part of its contract)
 """
 import hashlib
@@ -220,6 +223,7 @@ def build(template_path, repo, out_path, drop_tags=()):
             unguard = False
             emit_as = None
             opaque_async = False
+            async_body = None
             pin_alias = None
             foreach_it = None
             sink = None
@@ -249,6 +253,8 @@ def build(template_path, repo, out_path, drop_tags=()):
                         oname = d[5:].strip()
                     elif d.startswith("emit_as "):
                         emit_as = d[8:].strip()
+                    elif d.startswith("async_block_body "):
+                        async_body = int(d.split()[1])
                     elif d.startswith("pin_alias "):
                         mm = re.match(r'pin_alias (\w+)=self\.(\w+)$', d)
                         if not mm:
@@ -625,6 +631,30 @@ def build(template_path, repo, out_path, drop_tags=()):
                 edits.append((ltoks[e0].s, ltoks[q].e, f"for {pat} in {foreach_it}: {recv} \n" + "\n".join(foreach_inv) + "\n"))
                 edits.append((ltoks[bclose + 1].s, ltoks[bclose + 2].e, ""))
                 unit.drops["for_each_rewritten_as_for"] = unit.drops.get("for_each_rewritten_as_for", 0) + 1
+            if async_body is not None:
+                # rule 18: see the module docstring
+                blocks = []
+                k = bol + 1
+                while k < bcl:
+                    if ltoks[k].k == "id" and ltoks[k].t == "async":
+                        j = k + 1
+                        if ltoks[j].k == "id" and ltoks[j].t == "move":
+                            j += 1
+                        if ltoks[j].t == "{":
+                            e = rslex.match_close(ltoks, j)
+                            blocks.append((k, j, e))
+                            k = e + 1
+                            continue
+                    k += 1
+                if async_body >= len(blocks):
+                    raise ExtractError(f"anchor lost: `{path[-1]}` has {len(blocks)} async blocks, contract names block {async_body}")
+                k, j, e = blocks[async_body]
+                cut = [(ltoks[bol].e, ltoks[j].e), (ltoks[e].s, ltoks[bcl].s)]
+                edits = [x for x in edits if not any(c0 <= x[0] and x[1] <= c1 for (c0, c1) in cut)]
+                # (a `body_prefix` of the contract goes in front of the block's body)
+                edits.append((cut[0][0], cut[0][1], "\n" + "\n".join(body_prefix) + "\n"))
+                edits.append((cut[1][0], cut[1][1], "\n"))
+                unit.drops["async_block_body_emitted_as_function_body"] = unit.drops.get("async_block_body_emitted_as_function_body", 0) + 1
             if opaque_async:
                 # rule 16: see the module docstring
                 n16 = 0
